@@ -1,0 +1,67 @@
+//! Verification hooks (compiled only with `--cfg rce_verif`): drive the real command loop from a
+//! byte buffer and observe the session position after every executed command.
+#![allow(dead_code, clippy::all, clippy::pedantic, clippy::nursery)]
+
+use super::uci_command::{PositionKind, UCICommand};
+use super::Uci;
+use std::sync::Mutex;
+
+/// When installed, `uci_loop` appends one state dump of `Uci.board` per executed command
+pub static BOARD_LOG: Mutex<Option<Vec<String>>> = Mutex::new(None);
+
+pub(super) fn after_command(u: &Uci) {
+    if let Some(v) = BOARD_LOG.lock().unwrap().as_mut() {
+        v.push(crate::board::verif::dump(&u.board));
+    }
+    crate::search::verif::sched("command_done");
+}
+
+/// Runs the real `uci_loop` over `input` and returns the final session position
+pub fn run_session(input: &[u8]) -> String {
+    let mut u = Uci::new();
+    let mut cursor = std::io::Cursor::new(input);
+    u.uci_loop(&mut cursor);
+    if let Some(jh) = u.join_handle.take() {
+        if let Some(r) = &u.search_running {
+            r.store(false, std::sync::atomic::Ordering::Relaxed);
+        }
+        let _ = jh.join();
+    }
+    crate::board::verif::dump(&u.board)
+}
+
+/// The parser's verdict on one token list, as a small enum rendered to text
+pub fn parse_kind(fields: &[&str]) -> String {
+    match UCICommand::new(fields) {
+        Ok(UCICommand::Uci) => "ok uci".into(),
+        Ok(UCICommand::IsReady) => "ok isready".into(),
+        Ok(UCICommand::UCINewGame) => "ok ucinewgame".into(),
+        Ok(UCICommand::Stop) => "ok stop".into(),
+        Ok(UCICommand::Quit) => "ok quit".into(),
+        Ok(UCICommand::SetOption { name, value }) => {
+            format!("ok setoption [{}] [{}]", name, value.unwrap_or_else(|| "<none>".into()))
+        }
+        Ok(UCICommand::Position { kind, moves }) => {
+            let k = match kind {
+                PositionKind::StartPos => "startpos".to_string(),
+                PositionKind::Fen { fen } => format!("fen[{fen}]"),
+            };
+            let m = moves.map_or("<none>".to_string(), |m| m.join(","));
+            format!("ok position {k} moves[{m}]")
+        }
+        Ok(UCICommand::Go { limits }) => {
+            let o = |x: Option<u128>| x.map_or("-".to_string(), |v| v.to_string());
+            format!(
+                "ok go depth={} nodes={} movetime={} wtime={} btime={} winc={} binc={}",
+                limits.depth.map_or("-".to_string(), |v| v.to_string()),
+                limits.nodes.map_or("-".to_string(), |v| v.to_string()),
+                o(limits.movetime),
+                o(limits.white_time),
+                o(limits.black_time),
+                o(limits.white_increment),
+                o(limits.black_increment),
+            )
+        }
+        Err(_) => "rejected".into(),
+    }
+}
